@@ -162,7 +162,10 @@ pub mod shims {
         impl std::fmt::Display for OrdIdentifier { #[verifier::external_body] fn fmt(&self, f: &mut std::fmt::Formatter) -> std::fmt::Result { unimplemented!() } }
         pub struct Authorization { pub identifier: OrdIdentifier, pub status: AuthorizationStatus, pub challenges: Vec<Challenge>, pub wildcard: Option<bool> }
         impl Authorization { #[verifier::external_body] pub fn get_error(&self) -> Option<Error> { unimplemented!() } }
-        pub struct Order { pub status: OrderStatus, pub authorizations: Vec<String>, pub finalize: String, pub certificate: Option<String> }
+        // structs/order.rs::Identifier as an order object carries it (the CA's own list, not the configuration's)
+        pub struct OrderIdentifier { pub id_type: crate::shims::IdentifierType, pub value: String }
+        pub struct Order { pub status: OrderStatus, pub authorizations: Vec<String>, pub finalize: String, pub certificate: Option<String>,
+                           pub identifiers: Vec<OrderIdentifier>, pub expires: Option<String>, pub not_before: Option<String>, pub not_after: Option<String> }
         impl Order { #[verifier::external_body] pub fn get_error(&self) -> Option<Error> { unimplemented!() } }
         pub struct NewOrder { pub ids: Ghost<Seq<Identifier>> }
         impl NewOrder {
@@ -223,6 +226,13 @@ pub mod shims {
     #[verifier::external_body]
     pub fn values_of_type(ids: &Vec<Identifier>, t: IdentifierType) -> (r: Vec<String>)
         ensures r@.map_values(|s: String| s@) == values_spec(ids@, t) { unimplemented!() }
+    // the same chain over the identifiers an order object of the CA lists (structs::order::Identifier): whatever the CA answered
+    pub open spec fn order_values_spec(ids: Seq<structs::OrderIdentifier>, t: IdentifierType) -> Seq<Seq<char>> {
+        ids.filter(|e: structs::OrderIdentifier| e.id_type == t).map_values(|e: structs::OrderIdentifier| e.value@)
+    }
+    #[verifier::external_body]
+    pub fn order_values_of_type(ids: &Vec<structs::OrderIdentifier>, t: IdentifierType) -> (r: Vec<String>)
+        ensures r@.map_values(|s: String| s@) == order_values_spec(ids@, t) { unimplemented!() }
     pub mod certificate {
         use vstd::prelude::*;
         use super::*;
